@@ -130,7 +130,22 @@ def portOf (h : Bytes) : Bytes :=
   let i := (h.takeWhile (· != 58)).length
   if i < h.length ∧ i > 0 then h.drop (i + 1) else [56, 48]
 def queryGet (r : Req) (k : Bytes) : Bytes := (assoc k r.query).getD []
-def headerGet (hs : List (Bytes × Bytes)) (k : Bytes) : Bytes := (assoc k hs).getD []
+/-- `validHeaderFieldByte` of net/textproto: the token characters of RFC 7230 -/
+def tokenByte (c : UInt8) : Bool :=
+  (48 ≤ c && c ≤ 57) || (65 ≤ c && c ≤ 90) || (97 ≤ c && c ≤ 122) ||
+  [33, 35, 36, 37, 38, 39, 42, 43, 45, 46, 94, 95, 96, 124, 126].contains c
+
+def canonLoop : Bool → Bytes → Bytes
+  | _, [] => []
+  | up, c :: rest =>
+    let c' := if up && (97 ≤ c && c ≤ 122) then c - 32 else if !up && (65 ≤ c && c ≤ 90) then c + 32 else c
+    c' :: canonLoop (c == 45) rest
+
+/-- `textproto.CanonicalMIMEHeaderKey`: keys with a byte that is not a token character are left alone -/
+def canonKey (k : Bytes) : Bytes := if k.all tokenByte then canonLoop true k else k
+
+/-- `Header.Get(key)`: first value stored under the canonical form of the key, "" if none -/
+def headerGet (hs : List (Bytes × Bytes)) (k : Bytes) : Bytes := (assoc (canonKey k) hs).getD []
 def tagsOf (r : Req) (k : Bytes) : Option (List Bytes) := (r.tags.find? (fun t => t.1 == k)).map (·.2)
 def uaKey : Bytes := [85, 115, 101, 114, 45, 65, 103, 101, 110, 116]            -- "User-Agent"
 def dtKey : Bytes := [88, 45, 66, 102, 101, 45, 68, 101, 98, 117, 103, 45, 84, 105, 109, 101]  -- "X-Bfe-Debug-Time"
@@ -325,7 +340,7 @@ def specIpRange (o : Orc) (a0 a1 : Bytes) (ip : Option Bytes) : Option Bool :=
 def specTls (r : Req) : Option Tls := if r.secure then r.tls else none
 
 def sRe (o : Orc) (p : Bytes) (a : Option Bytes) : Option Bool := if o.x.regexOk p then some (attr a (o.reMatch p)) else none
-def sRh (r : Req) (k : Bytes) : Option Bytes := match r.resp with | some p => assoc k p.headers | none => none
+def sRh (r : Req) (k : Bytes) : Option Bytes := match r.resp with | some p => assoc (canonKey k) p.headers | none => none
 
 /-- the documented meaning; a missing attribute makes the primitive false -/
 def specPrim (o : Orc) (prim : String) (a0 a1 : Bytes) (fold : Bool) (r : Req) : Option Bool :=
@@ -348,7 +363,7 @@ def specPrim (o : Orc) (prim : String) (a0 a1 : Bytes) (fold : Bool) (r : Req) :
   | "req_path_element_prefix_in" => some (specPathElem a0 fold r.path)
   | "req_path_regmatch" => sRe o a0 (some r.path)
   | "req_url_regmatch" => sRe o a0 (some r.uri)
-  | "req_ua_regmatch" => sRe o a0 (assoc uaKey r.headers)
+  | "req_ua_regmatch" => sRe o a0 (assoc (canonKey uaKey) r.headers)
   | "req_query_exist" => some (r.query.length != 0)
   | "req_query_key_in" => some ((patterns a0).any (fun k => r.query.any (fun kv => kv.1 == k)))
   | "req_query_key_prefix_in" =>
@@ -359,13 +374,13 @@ def specPrim (o : Orc) (prim : String) (a0 a1 : Bytes) (fold : Bool) (r : Req) :
   | "req_query_value_contain" => some (attr (assoc a0 r.query) (specContain a1 fold))
   | "req_query_value_regmatch" => sRe o a1 (assoc a0 r.query)
   | "req_query_value_hash_in" => specHash o a1 fold (assoc a0 r.query)
-  | "req_header_key_in" => some ((patterns a0).any (fun k => r.headers.any (fun kv => kv.1 == k)))
-  | "req_header_value_in" => some (attr (assoc a0 r.headers) (specIn a1 fold))
-  | "req_header_value_prefix_in" => some (attr (assoc a0 r.headers) (specPrefix a1 fold))
-  | "req_header_value_suffix_in" => some (attr (assoc a0 r.headers) (specSuffix a1 fold))
-  | "req_header_value_contain" => some (attr (assoc a0 r.headers) (specContain a1 fold))
-  | "req_header_value_regmatch" => sRe o a1 (assoc a0 r.headers)
-  | "req_header_value_hash_in" => specHash o a1 fold (assoc a0 r.headers)
+  | "req_header_key_in" => some ((patterns a0).any (fun k => r.headers.any (fun kv => kv.1 == canonKey k)))
+  | "req_header_value_in" => some (attr (assoc (canonKey a0) r.headers) (specIn a1 fold))
+  | "req_header_value_prefix_in" => some (attr (assoc (canonKey a0) r.headers) (specPrefix a1 fold))
+  | "req_header_value_suffix_in" => some (attr (assoc (canonKey a0) r.headers) (specSuffix a1 fold))
+  | "req_header_value_contain" => some (attr (assoc (canonKey a0) r.headers) (specContain a1 fold))
+  | "req_header_value_regmatch" => sRe o a1 (assoc (canonKey a0) r.headers)
+  | "req_header_value_hash_in" => specHash o a1 fold (assoc (canonKey a0) r.headers)
   | "req_cookie_key_in" => some ((patterns a0).any (fun k => r.cookies.any (fun kv => kv.1 == k)))
   | "req_cookie_value_in" => some (attr (assoc a0 r.cookies) (specIn a1 fold))
   | "req_cookie_value_prefix_in" => some (attr (assoc a0 r.cookies) (specPrefix a1 fold))
@@ -392,7 +407,7 @@ def specPrim (o : Orc) (prim : String) (a0 a1 : Bytes) (fold : Bool) (r : Req) :
     if ps.all (·.isSome) then some (attr r.vip fun ip => ps.contains (some ip)) else none
   | "res_code_in" => some (attr (r.resp.map (·.code)) (specIn a0 false))
   | "res_header_key_in" => some (attr (r.resp.map fun _ => []) fun _ =>
-      (patterns a0).any (fun k => (r.resp.map (·.headers)).getD [] |>.any (fun kv => kv.1 == k)))
+      (patterns a0).any (fun k => (r.resp.map (·.headers)).getD [] |>.any (fun kv => kv.1 == canonKey k)))
   | "res_header_value_in" => some (attr (sRh r a0) (specIn a1 fold))
   | "ses_tls_sni_in" => some (attr ((specTls r).bind fun t => if t.sni.isEmpty then none else some t.sni) (specIn a0 true))
   | "ses_tls_client_auth" => some (match specTls r with | some t => t.clientAuth | none => false)
